@@ -88,6 +88,11 @@ class CoDomain(Domain):
     def resolve_call(self, st, call, walker):
         r = walker.default_resolve(st, call)
         if r is None:
+            # a private module-level helper of the coroutine module
+            r = walker.resolve_module_func(st, call)
+            if r is not None and r[0].name.startswith('_') and r[0].module \
+                    is st.frames[0].func.module:
+                return r
             return None
         if r[0].cls is None or r[0].cls.name != 'CoroutineProcessor':
             return None
@@ -128,6 +133,10 @@ class CoDomain(Domain):
                                                                ast.Is)):
                 return lt == rt
             if fo is not None:
+                if isinstance(op, ast.Is) and isinstance(r, ast.Constant) \
+                        and r.value is None and self._is_focus(st, lt) \
+                        and 'heappop' in lt:
+                    return False        # a popped wait record's generator
                 if isinstance(op, ast.In) and self._is_focus(st, lt):
                     if rt == K:
                         return fo['inK']
@@ -137,6 +146,14 @@ class CoDomain(Domain):
                         return fo['inP']
                 v = self._rec_value(st, l)
                 if v is not None:
+                    if isinstance(r, ast.Name) and isinstance(
+                            op, (ast.Is, ast.Eq)) and self.program.is_sentinel(
+                                st.frame.func.module, r.id):
+                        # a private sentinel object: equal only to itself
+                        if v == 'default':
+                            d = l.args[1] if len(l.args) > 1 else None
+                            return isinstance(d, ast.Name) and d.id == r.id
+                        return False
                     if isinstance(r, ast.Constant):
                         if isinstance(op, ast.Is) and r.value is None:
                             return v == 'none'
@@ -179,7 +196,7 @@ class CoDomain(Domain):
             # a loop test: the iteration (if any) is over -> check Inv
             if isinstance(ev.node, ast.AST) and getattr(
                     ev.node, '_is_loop_test', False):
-                self._close_iteration(st, ev)
+                self._close_iteration(st, ev, from_test=True)
         if k == 'local' and self.mode == 'process':
             return self._maybe_focus(st, ev)
         if k == 'call' and ev.func is None:
@@ -192,8 +209,14 @@ class CoDomain(Domain):
             st.data['vals'].append(ev.sym.text if ev.sym else None)
         return [(None, st)]
 
-    def _close_iteration(self, st, ev):
+    def _close_iteration(self, st, ev, from_test=False):
         fo = st.data['focus']
+        if from_test and fo is not None and fo.get('_muts0') == \
+                st.data['muts'] and fo.get('_loop') == 'wake loop':
+            # `gen = <pop>; while gen is not None: ...; gen = <pop>`: the
+            # test right after the binding opens the iteration, it does not
+            # end it
+            return
         if fo is not None:
             st.data['checks'].append((fo.pop('_from'), fo.pop('_loop'),
                                       dict(fo), inv_problems(fo),
@@ -208,6 +231,10 @@ class CoDomain(Domain):
         t = ev.sym.text
         if t == f'heapq.heappop({WQ}).generator' or (
                 t.endswith('.generator') and 'heappop' in t and WQ in t):
+            if st.data['focus'] is not None:
+                # a loop written `while True: gen = ...; if ..: break`: the
+                # next binding ends the previous iteration
+                self._close_iteration(st, ev)
             out = []
             for name in ('waiting', 'waiting+kill'):
                 s = st.copy()
@@ -215,6 +242,7 @@ class CoDomain(Domain):
                 fo['nW'] -= 1           # it has just been popped
                 fo['_from'] = name
                 fo['_loop'] = 'wake loop'
+                fo['_muts0'] = s.data['muts']
                 s.data['focus'] = fo
                 s.data['aliases'] = [t]
                 out.append((None, s))
@@ -289,6 +317,12 @@ class CoDomain(Domain):
 
     def _heap_filter(self, st, ev, v):
         fo = st.data['focus']
+        if isinstance(v, ast.Name):
+            # a local holding the filtered list
+            sv = st.frame.env.get(v.id)
+            if sv is not None and isinstance(getattr(sv, 'node', None),
+                                             ast.ListComp):
+                v = sv.node
         if isinstance(v, ast.ListComp) and len(v.generators) == 1 and dotted(
                 v.generators[0].iter) == WQ and len(
                     v.generators[0].ifs) == 1:
@@ -444,11 +478,24 @@ class CoDomain(Domain):
         return [(None, st)]
 
 
-def _mark_loop_tests(func):
+def _mark_loop_tests(func, _seen=None):
+    """Mark the loop tests of process() and of the private helpers it runs
+    (the two phases of the frame may live in methods of their own)."""
+    _seen = _seen if _seen is not None else set()
+    if func.node in _seen:
+        return
+    _seen.add(func.node)
     for n in ast.walk(func.node):
         if isinstance(n, ast.While):
             for leaf in _leaves(n.test):
                 leaf._is_loop_test = True
+        if isinstance(n, ast.Call) and isinstance(n.func, ast.Attribute) \
+                and isinstance(n.func.value, ast.Name) \
+                and n.func.value.id == 'self' and func.cls is not None:
+            g = func.cls.methods.get(n.func.attr)
+            if g is not None and g.name.startswith('_') \
+                    and not g.name.startswith('__'):
+                _mark_loop_tests(g, _seen)
 
 
 def _leaves(t):
